@@ -51,7 +51,7 @@ def _o(name):
 
 def gen_inc(rnd, nm, leaf_ok):
     body = [("text", nm[0].upper())]
-    for v in rnd.sample(["x", "y", "i", "g", "gl", "h", "h"], 3):
+    for v in rnd.sample(["x", "y", "i", "g", "gl", "h", "h", "u", "u"], 4):
         body.append(_o(v))
     if rnd.random() < 0.5:
         body.append(("set", "x", ("c", 41)))
@@ -64,7 +64,7 @@ def gen_inc(rnd, nm, leaf_ok):
 
 def gen_mod(rnd, nm):
     k = 50 if nm == "mod1" else 60
-    body = [("set", "v", ("c", k + 1)), ("set", "_p", ("c", k + 2))]
+    body = [("set", "v", ("c", k + 1)), ("set", "_p", ("c", k + 2)), ("settuple", ["tv", "tw", "_tq"], [("c", k + 5), ("c", k + 6), ("c", k + 7)])]
     mbody = [("text", "F"), _o("p"), _o("v"), _o("gl")] + [_o(rnd.choice(["x", "y", "g", "i", "h"]))]
     body.append(("macro", "f", ["p"], mbody))
     body.append(("macro", "_h", [], [("text", "H")]))
@@ -84,7 +84,8 @@ def gen_use(rnd, depth):
         tn = rnd.choice(["mod1", "mod2"])
         wc = rnd.choice([None, True, False])
         out = [("import", tn, alias, wc), ("callm_attr", alias, "f", [("v", rnd.choice(["x", "g"]))]),
-               ("out", ("attr", alias, "v")), ("out", ("attr", alias, "_p")), ("out", ("attr", alias, "w")), ("out", ("attr", alias, "zz"))]
+               ("out", ("attr", alias, "v")), ("out", ("attr", alias, "_p")), ("out", ("attr", alias, "w")), ("out", ("attr", alias, "zz")),
+               ("out", ("attr", alias, "tw")), ("out", ("attr", alias, "_tq"))]
         return out
     if r < 0.62:
         tn = rnd.choice(["mod1", "mod2"])
@@ -122,7 +123,8 @@ def gen_set(seed):
          "mod1": gen_mod(rnd, "mod1"), "mod2": gen_mod(rnd, "mod2")}
     BLK[0] = 0
     # h is both a render argument and assigned at the top of main: the template's own assignment wins everywhere
-    main = [("text", "<"), ("set", "h", ("c", 99))] + gen_uses(rnd, 0) + gen_uses(rnd, 0) + [_o("x"), _o("y"), _o("h"), ("text", ">")]
+    main = [("text", "<"), ("set", "h", ("c", 99))] + gen_uses(rnd, 0) + gen_uses(rnd, 0) + [_o("x"), _o("y"), _o("h"), ("text", ">"), ("set", "u", ("c", 5))]
+    # u is a render argument that main assigns only at its very end: includes before that see the argument
     t["main"] = main
     return t
 
@@ -214,7 +216,7 @@ def set_ok(cs: List[bool], xs: List[int], ys: List[int], g: int, present: List[b
     """
     for n, p in zip(OPTIONAL, present):
         PRESENT[n] = True if p else False
-    ctx = dict(c0=cs[0], c1=cs[1], c2=cs[2], c3=cs[3], xs=[v for v in xs], ys=[v for v in ys], g=g, h=g - 1)
+    ctx = dict(c0=cs[0], c1=cs[1], c2=cs[2], c3=cs[3], xs=[v for v in xs], ys=[v for v in ys], g=g, h=g - 1, u=g + 7)
     return _run(ctx) == _ref(ctx)
 
 
